@@ -6,7 +6,7 @@ pc.install(globals(), "C12", "C12", "join",
           "random interleavings of sends on the different inputs, closes (also early closes) and receives from VERIF_SEED, drained to completion. "
           "Distinct by full observed trace; non-trivial when a value was delivered"),
     claim={
-        "text": "Theorems proved by the Coq kernel for every number of inputs, capacities and interleaving: the output is an interleaving of prefixes of the inputs (per-input order, nothing duplicated or invented), it closes only after every input is closed and drained (unless cancelled), and it does close then; with no input it closes immediately. Tied to the code by trace acceptance.",
+        "text": "Theorems proved by the Coq kernel for every number of inputs, capacities and interleaving: the output is an interleaving of prefixes of the inputs (per-input order, nothing duplicated or invented), it closes only after every input is closed and drained (unless cancelled), and it does close then; with no input it closes immediately. No input is starved by another one, whatever the arrival order: whenever the stage is at rest each input's goroutine has returned (input closed and drained), or is parked on an empty open input whose next send is accepted at once (even unbuffered) and forwarded, or holds one element that only a full output keeps back. Tied to the code by trace acceptance.",
         "design_ref": "DESIGN.md 3/C12",
         "note": "Trusted: Coq kernel; Pool machine as model of Go channels/goroutines/WaitGroup; harness. Scheduler fairness assumed for 'does close'.",
         "technique": "Coq proof (invariants over executions) + trace-acceptance correspondence",
